@@ -66,6 +66,11 @@ type Sched struct {
 	Horizon int
 	// AccessYields makes every instrumented memory access a scheduling point.
 	AccessYields bool
+	// PostYield adds a scheduling point AFTER channel sends/receives/closes and after lock
+	// acquisitions and WaitGroup waits (unlocks and WaitGroup.Add already have one): the code that
+	// follows an operation is then a step of its own, so that a thread can be preempted between
+	// handing something over and what it does next with data the scheduler does not see.
+	PostYield bool
 	// YieldFilter, if set, decides which Yield sites are scheduling points.
 	YieldFilter func(site string) bool
 
